@@ -27,10 +27,10 @@ func init() {
 		},
 		Needs: []string{"libow"},
 		Workloads: []core.Workload{
-			{Name: "lockstep", Variant: "plain", N: core.Tiered(8*150, 8*4000), Run: c03Lockstep},
-			{Name: "lockstep-asan", Variant: "asan", N: core.Tiered(8*40, 8*600), Run: c03LockstepAsan,
+			{Name: "lockstep", Variant: "plain", N: core.Tiered(8*150, 8*15000), Run: c03Lockstep},
+			{Name: "lockstep-asan", Variant: "asan", N: core.Tiered(8*40, 8*3000), Run: c03LockstepAsan,
 				Env: []string{"ASAN_OPTIONS=detect_leaks=0:halt_on_error=1:abort_on_error=1"}},
-			{Name: "abi", Variant: "plain", N: core.Tiered(41*3, 41*80), Run: c03ABI, TimeoutS: 120},
+			{Name: "abi", Variant: "plain", N: core.Tiered(41*3, 41*250), Run: c03ABI, TimeoutS: 120},
 		},
 		RequireTags: func(string) []string { return []string{"alloc:guard-after", "alloc:guard-before", "alloc:malloc", "abi:initstates", "abi:states"} },
 	})
